@@ -299,6 +299,7 @@ type RunCtx struct {
 	Tier   string
 	Seed   uint64
 	N      int
+	From   int // first case index (cases are From .. From+N-1)
 	Model  *Model
 	Res    *Result
 	Replay string // path of a replay/corpus file to run instead of generating
